@@ -2,6 +2,7 @@ import Txtpp.Lemmas.PathNameFacts
 import Txtpp.Lemmas.SeenClosure
 import Txtpp.Lemmas.Hermetic
 import Txtpp.Lemmas.ScanSpec
+import Txtpp.Lemmas.Interning
 /-!
 # Property C11 — exactly the requested sources are processed and outputs are named correctly
 
@@ -84,5 +85,31 @@ theorem scanned_file_is_a_source (fs : Txt.FS) (r : Bool) (d p : Txt.Path) (h : 
     (∃ b, (p, b) ∈ fs.files) ∧ p.dropLast = d ∧ ∃ n, p.getLast? = some n ∧ PathName.isTxtppFile n = true := by
   obtain ⟨h1, _, h3, h4⟩ := (Txt.mem_scanDir_files fs r d p).1 h
   exact ⟨h1, h3, h4⟩
+
+/-- **Naming the same file several ways processes it once (file table).** Paths are interned after OS
+path resolution; two inputs (or an input and a scanned or required file) that resolve to the same
+path get the same file index, and different paths get different indices - so for the coordinator they
+are one file, which `processed_once_each` completes once. -/
+theorem same_path_same_file (ps names : List Txt.Path) (hn : names.Nodup) (i j : Nat) (hi : i < ps.length) (hj : j < ps.length)
+    (h : ps[i] = ps[j]) :
+    (Txt.indexAll names ps).2[i]'(by rw [(Txt.indexAll_spec ps names).1]; exact hi) =
+    (Txt.indexAll names ps).2[j]'(by rw [(Txt.indexAll_spec ps names).1]; exact hj) :=
+  Txt.indexAll_same ps names hn i j hi hj h
+
+/-- the table is faithful: every index designates its path, the table stays duplicate-free -/
+theorem file_table_faithful (ps names : List Txt.Path) :
+    (names.Nodup → (Txt.indexAll names ps).1.Nodup) ∧
+    ∀ k (hk : k < ps.length), ∃ hk' : k < (Txt.indexAll names ps).2.length,
+      (Txt.indexAll names ps).1.getD ((Txt.indexAll names ps).2[k]) [] = ps[k] ∧
+      (Txt.indexAll names ps).2[k] < (Txt.indexAll names ps).1.length :=
+  ⟨(Txt.indexAll_spec ps names).2.2.1, (Txt.indexAll_spec ps names).2.2.2⟩
+
+/-- spellings with `.`, empty components and `d/..` resolve to the same path -/
+theorem dot_components_do_not_matter (fs : Txt.FS) (cur : Txt.Path) (cs : List (List Char)) (h : fs.isDir cur = true) :
+    fs.walk cur (Txt.dot :: cs) = fs.walk cur cs ∧ fs.walk cur ([] :: cs) = fs.walk cur cs := Txt.walk_dot fs cur cs h
+
+theorem down_and_up_is_identity (fs : Txt.FS) (cur : Txt.Path) (c : List Char) (cs : List (List Char)) (h : fs.isDir cur = true)
+    (hc : fs.isDir (cur ++ [c]) = true) (h1 : c ≠ []) (h2 : c ≠ Txt.dot) (h3 : c ≠ Txt.dotdot) :
+    fs.walk cur (c :: Txt.dotdot :: cs) = fs.walk cur cs := Txt.walk_down_up fs cur c cs h hc h1 h2 h3
 
 end C11
